@@ -490,18 +490,39 @@ func c15(c *core.Ctx) {
 		for _, h := range handlers {
 			isHandler[h] = true
 		}
-		okAll, nRet := true, 0
-		for _, r := range core.Returns(work) {
-			nRet++
-			v := core.RetVal(r, 0)
-			if ci, ok := v.(*ssa.Call); ok && isHandler[core.StaticFn(ci)] {
+		// the case tests: `msg.Code == <constant>`; what is reached from the entry without taking any equal edge is the path of an unknown code
+		okAll, nRet, nCase := true, 0, 0
+		caseEntry := map[*ssa.BasicBlock]bool{}
+		cut := map[[2]*ssa.BasicBlock]bool{}
+		for _, b := range work.Blocks {
+			ifi := ifOf(b)
+			if ifi == nil {
 				continue
 			}
+			bo, isB := ifi.Cond.(*ssa.BinOp)
+			if !isB || bo.Op != token.EQL {
+				continue
+			}
+			_, xc := bo.X.(*ssa.Const)
+			_, yc := bo.Y.(*ssa.Const)
+			if !xc && !yc {
+				continue
+			}
+			nCase++
+			caseEntry[b.Succs[0]] = true
+			cut[[2]*ssa.BasicBlock{b, b.Succs[0]}] = true
+		}
+		unknown := core.ReachCutAvoid(work.Blocks[0], cut, nil)
+		for _, r := range core.Returns(work) {
+			if !unknown[r.Block()] {
+				continue
+			}
+			nRet++
 			if core.ClassifyReturn(r, nil, nil) != core.RetFailure {
 				okAll = false
 			}
 		}
-		c.Check("work:unknown-code-rejected", "dispatch-default", okAll && nRet > len(handlers), work.Pos(), "every exit of work returns a handler's result or an error (%d exits, %d handlers)", nRet, len(handlers))
+		c.Check("work:unknown-code-rejected", "dispatch-default", okAll && nRet >= 1 && nCase >= len(handlers)-len(c.InlinedPairs())-1, work.Pos(), "every exit of work that is reached without matching a message code is an error (%d such exit(s), %d code tests, %d handlers)", nRet, nCase, len(handlers))
 		hm := c.Fn("network.ProtocolManager.handleMsg")
 		for _, g := range core.CallsIn(hm, c.Method("network.ProtocolManager", "work")) {
 			ok := false
